@@ -44,6 +44,17 @@ fn test(c: &SimCase, obs: &mut Obs) -> CheckResult {
     Ok(())
 }
 
+/// The timing policy on runs with scripted socket faults (failed sends, TCP re-issues).
+fn faults_test(c: &SimCase, obs: &mut Obs) -> CheckResult {
+    let log = run_trace(&c.cfg, &c.world);
+    if e2e::prepare(&log, obs)?.is_none() {
+        return Ok(());
+    }
+    e2e::check_timing(&log, obs)?;
+    obs.sample(json!({"cfg": c.cfg.cell(), "rounds": log.rounds.len()}));
+    Ok(())
+}
+
 pub fn check() -> PropertyCheck {
     PropertyCheck {
         id: "C08",
@@ -59,6 +70,14 @@ pub fn check() -> PropertyCheck {
             thorough: 3_000_000,
             strat,
             test,
+            max_shrink: 3000,
+        }),
+        Box::new(Pbt {
+            name: "timing-faults",
+            quick: 40_000,
+            thorough: 1_500_000,
+            strat: super::c10::fault_strat,
+            test: faults_test,
             max_shrink: 3000,
         })],
     }
